@@ -44,7 +44,11 @@ type (
 		Name string
 	}
 	CParam struct{ Name, Type string }
-	CAll   struct {
+	CAnyTable struct {
+		Var, Table string
+		Body       CExpr
+	}
+	CAll struct {
 		Var    string
 		Lo, Hi int64
 		Body   CExpr
@@ -572,6 +576,28 @@ func (p *cparser) expr() (CExpr, error) {
 		}
 		return &CQuant{Forall: t.s == "forall", Vars: vars, Body: body}, nil
 	}
+	if t.kind == "id" && t.s == "anytable" {
+		p.next()
+		n := p.next()
+		if n.kind != "id" {
+			return nil, fmt.Errorf("anytable: expected variable")
+		}
+		if in := p.next(); in.s != "in" {
+			return nil, fmt.Errorf("anytable: expected 'in'")
+		}
+		tb := p.next()
+		if tb.kind != "str" {
+			return nil, fmt.Errorf("anytable: table name in quotes expected")
+		}
+		if err := p.expect("::"); err != nil {
+			return nil, err
+		}
+		body, err := p.expr()
+		if err != nil {
+			return nil, err
+		}
+		return &CAnyTable{Var: n.s, Table: tb.s, Body: body}, nil
+	}
 	if t.kind == "id" && t.s == "all" {
 		p.next()
 		n := p.next()
@@ -643,7 +669,7 @@ func (p *cparser) implies() (CExpr, error) {
 	if p.accept("==>") {
 		// right associative; allow a quantifier on the right
 		var y CExpr
-		if t := p.peek(); t.kind == "id" && (t.s == "forall" || t.s == "exists" || t.s == "all") {
+		if t := p.peek(); t.kind == "id" && (t.s == "forall" || t.s == "exists" || t.s == "all" || t.s == "anytable") {
 			y, err = p.expr()
 		} else {
 			y, err = p.implies()
